@@ -51,6 +51,8 @@ pub struct DItem {
     pub depth: Option<u8>,
     /// the k-th node-entry poll (0-based) of this search observes the stop
     pub stop_at: Option<u64>,
+    /// the stop is already pending when the search starts (the flag is created lowered)
+    pub pre_stopped: bool,
     /// start this item with an empty table
     pub fresh: bool,
     /// search a copy of the table and throw the copy away afterwards
@@ -182,7 +184,7 @@ impl Case {
         let items: Vec<Value> = self
             .items
             .iter()
-            .map(|i| json!({"root": i.root, "moves": i.moves, "depth": i.depth, "stop_at": i.stop_at, "fresh": i.fresh, "isolated": i.isolated,
+            .map(|i| json!({"root": i.root, "moves": i.moves, "depth": i.depth, "stop_at": i.stop_at, "pre_stopped": i.pre_stopped, "fresh": i.fresh, "isolated": i.isolated,
                 "sweep": i.sweep.as_ref().map(|w| json!({"all_upto": w.all_upto, "head": w.head, "samples": w.samples, "seed": w.seed})),
                 "descend": i.descend.as_ref().map(|d| json!({"plies": d.plies, "pick": d.pick})),
                 "walks": i.walks.as_ref().map(|w| json!({"n": w.n, "max_len": w.max_len, "seed": w.seed}))}))
@@ -315,6 +317,7 @@ impl Case {
                 moves: it["moves"].as_array().ok_or("moves")?.iter().filter_map(|x| x.as_str().map(|y| y.to_string())).collect(),
                 depth: it["depth"].as_u64().map(|d| d as u8),
                 stop_at: it["stop_at"].as_u64(),
+                pre_stopped: it["pre_stopped"].as_bool().unwrap_or(false),
                 fresh: it["fresh"].as_bool().unwrap_or(false),
                 isolated: it["isolated"].as_bool().unwrap_or(false),
                 sweep: if it["sweep"].is_object() {
